@@ -1640,6 +1640,9 @@ class RawAlgorithmsMixIn:
         if out is None:
             raise NotImplementedError('should implement that')
 
+        if not numpy.shares_memory(ybar_data, out):
+            # y was a copy of x (non-contiguous x), so ybar is not a view of xbar
+            out += numpy.reshape(ybar_data, out.shape)
         return numpy.reshape(out, x_data.shape)
 
     @classmethod
